@@ -78,7 +78,7 @@ pub fn build_runtime(k: i32) -> Runtime<NoCtx> {
 /// initialisers leave droppable temporaries behind, a zero-sized constant.
 pub fn script_files(v: i32) -> Vec<(String, String)> {
     let root = format!(
-        "record Conf {{\n    t: Tr,\n    n: i32,\n}}\nconst K: Tr = mk({k});\nconst Z: Tz = mkz();\nconst C: Conf = Conf {{ t: mk({c}), n: 5 }};\nconst SAME: bool = REG == REG;\nconst N: i32 = C.n + K.tag() - K.tag();\nfn f(x: i32) -> i32 {{\n    x * {v} + K.tag() + REG.tag() + host() + host_a() - host_b() + C.n - N + (if SAME {{ 0 }} else {{ 1000 }}) + C.t.tag() - {c} + m1.g() - {m} + hz(Z)\n}}\nfn other(x: i32) -> i32 {{\n    K.tag() - x\n}}\n",
+        "record Conf {{\n    t: Tr,\n    n: i32,\n}}\nconst K: Tr = mk({k});\nconst Z: Tz = mkz();\nconst C: Conf = Conf {{ t: mk({c}), n: 5 }};\nconst SAME: bool = REG == REG;\nconst N: i32 = C.n + K.tag() - K.tag();\nfn f(x: i32) -> i32 {{\n    x * {v} + K.tag() + REG.tag() + host() + host_a() - host_b() + C.n - N + (if SAME {{ 0 }} else {{ 1000 }}) + C.t.tag() - {c} + m1.g() - {m} + hz(Z) + (if banner().ends_with(\"version {v}\") {{ 0 }} else {{ 100000 }})\n}}\nfn banner() -> String {{\n    \"a string literal of more than one hundred and twenty-eight bytes, so that whatever the code generator does with large read-only data applies to it; it names its version {v}\"\n}}\nfn other(x: i32) -> i32 {{\n    K.tag() - x\n}}\n",
         k = 300 + v,
         c = 700 + v,
         m = 800 + v
